@@ -227,6 +227,9 @@ class Exec:
             return SVal('T3', self.th.T3.mk3(*[self.to_int(x) for x in v.t]))
         if kind == 'E' and v.kind == 'ME' or kind == 'ME' and v.kind == 'E':
             return SVal(kind, v.t)
+        if isinstance(kind, tuple) and kind[0] == 'tuple' and v.kind == CONST and isinstance(v.t, tuple) \
+                and len(v.t) == len(kind) - 1:
+            return SVal(kind, [self.lift(const(x), k) for x, k in zip(v.t, kind[1:])])
         if isinstance(kind, tuple) and kind[0] == 'tuple' and v.kind == 'T3':
             return SVal(kind, [SVal('int', self.th.T3.t0(v.t)), SVal('int', self.th.T3.t1(v.t)),
                                SVal('int', self.th.T3.t2(v.t))])
@@ -371,7 +374,7 @@ class Exec:
             if attr in consts:
                 return self.ev_static(consts[attr], base.t)
             return SVal(('ref',), q)
-        if k == 'cfg':
+        if k == 'cfg' and attr in ('differs', 'predicates'):
             return SVal(('cfgattr',), attr)
         if k == 'T3':
             raise OutOfSubset('attribute on tuple')
@@ -1530,7 +1533,7 @@ class Exec:
             after.env.pop(tname, None)
         snap = after.fork()
         snap.heap = dict(after.heap)
-        self.loop_exit[ordn] = snap
+        after.env['$exit%d' % ordn] = snap      # travels with the path
         outs.append(('next', after, None))
         return outs
 
@@ -1641,15 +1644,16 @@ class Exec:
                 outs.append((tag, s2, payload))
         snap = after.fork()
         snap.heap = dict(after.heap)
-        self.loop_exit[ordn] = snap
+        after.env['$exit%d' % ordn] = snap      # travels with the path
         outs.append(('next', after, None))
         return outs
 
     def call_after_loop(self, node, st):
         ordn = ast.literal_eval(node.args[0])
-        if ordn not in self.loop_exit:
+        snap = st.env.get('$exit%d' % ordn)
+        if snap is None:
             raise OutOfSubset('after_loop(%d): loop not executed on this path' % ordn)
-        return self.ev(node.args[1], self.loop_exit[ordn].fork())
+        return self.ev(node.args[1], snap.fork())
 
     # ---------------------------------------------------------------- function level
     def alias_check(self):
@@ -1691,6 +1695,8 @@ class Exec:
         for pname, pkind, _ in c.params:
             if pkind == OPAQUE:
                 st.env[pname] = SVal(OPAQUE, pname)
+            elif pkind == CONST:
+                st.env[pname] = const(None)
             elif pkind == 'cfg':
                 st.env[pname] = SVal('cfg', pname)
             else:
@@ -1801,6 +1807,15 @@ SPEC_FUNCS = {
     'aligned': ([('seq', 'V'), ('seq', 'V'), ('seq', 'E'), 'fn'], 'bool', lambda th: th.aligned),
     'step_out': ([('seq', 'V'), ('seq', 'V'), 'int', 'E'], ('seq', 'V'), lambda th: th.step_out),
     'step_take': (['int', 'E'], 'int', lambda th: th.step_take),
+    'pref_eq': ([('seq', 'V'), ('seq', 'V')], 'bool', lambda th: th.pref_eq),
+    'gap_eq': ([('seq', 'V'), ('seq', 'V'), 'int', 'int', 'int'], 'bool', lambda th: th.gap_eq),
+    'good_differ': (['fn'], 'bool', lambda th: th.good_differ),
+    'differs_ok': ([], 'bool', lambda th: (lambda: th.differs_ok)),
+    'pred_exact': (['fn', 'path'], 'bool', lambda th: th.pred_exact),
+    'preds_at': (['path'], ('seq', 'fn'), lambda th: th.preds_at),
+    'differs_at': (['path'], 'fn', lambda th: th.differs_at),
+    'path_star': (['path'], 'path', lambda th: th.path_star),
+    'differ': (['fn', 'V', 'V', 'path'], ('seq', 'E'), lambda th: th.differ),
     'has_valuelist': (['E'], 'bool', lambda th: th.has['valuelist']),
     'has_length': (['E'], 'bool', lambda th: th.has['length']),
     'has_diff': (['E'], 'bool', lambda th: th.has['diff']),
